@@ -130,6 +130,56 @@ fn run(input: &Tree) -> Option<Tree> {
                 L(v)
             }
         }
+        10 => {
+            // Ord's provided methods: min, max (method and free function), clamp
+            let (x, y, z) = (l.get(2)?.i64()?, l.get(3)?.i64()?, l.get(4)?.i64()?);
+            fn pack<T: Ord + Copy>(a: T, b: T, c: T, val: impl Fn(T) -> i64) -> Tree {
+                let (lo, hi) = if b <= c { (b, c) } else { (c, b) };
+                tl![a_(val(a.min(b))), a_(val(a.max(b))), a_(val(std::cmp::min(a, b))), a_(val(std::cmp::max(a, b))), a_(val(a.clamp(lo, hi))),
+                    a_(val(*[a, b, c].iter().max().unwrap())), a_(val(*[a, b, c].iter().min().unwrap()))]
+            }
+            fn a_(v: i64) -> Tree {
+                a(v)
+            }
+            match l.get(1)?.int()? {
+                0 => pack(Score(x), Score(y), Score(z), |s| s.0),
+                1 => pack(Error(x), Error(y), Error(z), |s| s.0),
+                _ => return None,
+            }
+        }
+        11 => {
+            // clone_from (directly and through Vec::clone_from) must carry the total along with the results
+            let (va, vb) = (vec64(l.get(2)?)?, vec64(l.get(3)?)?);
+            fn enc<R: Clone + std::iter::Sum + for<'a> std::iter::Sum<&'a R> + 'static>(va: Vec<i64>, vb: Vec<i64>, mk: impl Fn(i64) -> R, val: impl Fn(&R) -> i64) -> Tree
+            where
+                TestResults<R>: Clone,
+            {
+                let from = |v: &Vec<i64>| -> TestResults<R> { v.iter().map(|x| mk(*x)).collect() };
+                let mut x = from(&va);
+                x.clone_from(&from(&vb));
+                let mut v = vec![from(&va), from(&va)];
+                v.clone_from(&vec![from(&vb), from(&va)]);
+                let mut out = vec![a(val(&x.total_result))];
+                out.extend(x.results.iter().map(|r| a(val(r))));
+                out.push(A(-7));
+                out.push(a(val(&v[0].total_result)));
+                out.extend(v[0].results.iter().map(|r| a(val(r))));
+                L(out)
+            }
+            match l.get(1)?.int()? {
+                0 => enc(va, vb, Score, |s: &Score<i64>| s.0),
+                1 => enc(va, vb, Error, |s: &Error<i64>| s.0),
+                _ => return None,
+            }
+        }
+        12 => {
+            // individuals whose results are a single TestResult (score or error): only partially ordered
+            let ia = l.get(1)?.list()?;
+            let ib = l.get(2)?.list()?;
+            let a = EcIndividual::new(vec64(&ia[0])?, tres(&ia[1])?);
+            let b = EcIndividual::new(vec64(&ib[0])?, tres(&ib[1])?);
+            ops(&a, &b, None)
+        }
         _ => return None,
     })
 }
@@ -169,7 +219,21 @@ fn gen(tier: &str, rng: &mut Sm) -> Gen {
             g.inputs.push(tl![A(4), tv(&[x]), tv(&[y])]);
         }
     }
+    for &x in VALS {
+        for &y in VALS {
+            for &z in &[i64::MIN, -1, 0, 3, i64::MAX] {
+                g.inputs.push(tl![A(10), A(0), a(x), a(y), a(z)]);
+                g.inputs.push(tl![A(10), A(1), a(x), a(y), a(z)]);
+            }
+            for (ta, tb) in [(0, 0), (0, 1), (1, 0), (1, 1)] {
+                g.inputs.push(tl![A(12), tl![tv(&[1]), tl![A(ta), a(x)]], tl![tv(&[1]), tl![A(tb), a(y)]]]);
+                g.inputs.push(tl![A(12), tl![tv(&[1]), tl![A(ta), a(x)]], tl![tv(&[2, 3]), tl![A(tb), a(y)]]]);
+            }
+        }
+    }
     for _ in 0..n {
+        g.inputs.push(tl![A(11), a(rng.below(2) as i128), tv(&small_vec(rng)), tv(&small_vec(rng))]);
+        g.inputs.push(tl![A(10), a(rng.below(2) as i128), a(rng.range(-9, 9)), a(rng.range(-9, 9)), a(rng.range(-9, 9))]);
         let (va, vb) = (small_vec(rng), if rng.chance(1, 5) { vec![] } else { small_vec(rng) });
         // equal totals with different cases, equal vectors, ...
         let vb = match rng.below(6) {
@@ -193,6 +257,6 @@ fn gen(tier: &str, rng: &mut Sm) -> Gen {
         let (x, y) = (rng.next() as i64, rng.next() as i64);
         g.inputs.push(tl![A(rng.below(2) as i128), a(x), a(if rng.chance(1, 4) { x } else { y })]);
     }
-    g.meta("generator", "all pairs over 9 boundary values for Score/Error/TestResult/singleton TestResults; random result vectors (equal totals with different cases, reversed, empty), individuals with equal/different genomes, aggregation, scoring");
+    g.meta("generator", "all pairs over 9 boundary values for Score/Error/TestResult/singleton TestResults; random result vectors (equal totals with different cases, reversed, empty), individuals with equal/different genomes, aggregation, scoring; min / max / clamp; clone_from (also through Vec); individuals scored by a single score-or-error result");
     g
 }
